@@ -6,6 +6,8 @@ proof:   coq/theories/C16/*.v, Properties_C16.v
          isInCircleRobust on binary64: sound on the 2^25 grid, NOT complete (error band) — refutation witness)
 tie G:   translator units TP_isInCircleRobust / TP_isInCircleNonRobust (translator/units/C16.py), generated
          definitions proved equal to the hand model C16/B64Defs.v
+tie M:   the extracted quad-edge model (C16/QuadEdgeDefs.v: makeEdge / splice / connect / swap / remove as state machine) runs beside
+         real QuadEdge / QuadEdgeSubdivision objects (harness/c16_quadedge.cpp) on generated operation histories (mode H).
 tie M/R: the extracted checkers (ocaml/drv_C16.ml) judge the outputs of GEOSDelaunayTriangulation_r (triangles + edges,
          tolerance 0 and > 0), GEOSConstrainedDelaunayTriangulation_r and GEOSVoronoiDiagram_r (harness/c16.cpp); the extracted
          binary64 model of isInCircleRobust runs bit for bit beside TrianglePredicate (mode P).
@@ -635,6 +637,220 @@ def gen_pred_cases(rng, n):
     return out[:n]
 
 
+# ================================================================================================ quad-edge histories (mode H)
+class QESim:
+    """pointer tables mirroring QuadEdge.cpp — used ONLY to steer the history generator (which ring an edge is on, which
+    edges are interior / bridges); the verdict compares the extracted Coq model with the real QuadEdge objects."""
+    INIT = {0: 0, 1: 3, 2: 2, 3: 1}
+
+    def __init__(self):
+        self.n = 0; self.nxt = {}; self.org = {}; self.dead = set()
+
+    rot = staticmethod(lambda e: (e[0], (e[1] + 1) % 4))
+    inv = staticmethod(lambda e: (e[0], (e[1] + 3) % 4))
+    sym = staticmethod(lambda e: (e[0], (e[1] + 2) % 4))
+
+    def on(self, e): return self.nxt[e]
+    def oprev(self, e): return self.rot(self.on(self.rot(e)))
+    def lnext(self, e): return self.rot(self.on(self.inv(e)))
+
+    def make(self, o, d):
+        q = self.n; self.n += 1
+        for r in range(4):
+            self.nxt[(q, r)] = (q, self.INIT[r]); self.org[(q, r)] = 0
+        self.org[(q, 0)] = o; self.org[(q, 2)] = d
+        return (q, 0)
+
+    def splice(self, a, b):
+        al = self.rot(self.on(a)); be = self.rot(self.on(b))
+        t1, t2, t3, t4 = self.on(b), self.on(a), self.on(be), self.on(al)
+        self.nxt[a] = t1; self.nxt[b] = t2; self.nxt[al] = t3; self.nxt[be] = t4
+
+    def connect(self, a, b):
+        q0 = self.make(self.org[self.sym(a)], self.org[b])
+        self.splice(q0, self.lnext(a)); self.splice(self.sym(q0), b)
+        return q0
+
+    def swap(self, e):
+        a = self.oprev(e); b = self.oprev(self.sym(e))
+        self.splice(e, a); self.splice(self.sym(e), b)
+        self.splice(e, self.lnext(a)); self.splice(self.sym(e), self.lnext(b))
+        self.org[e] = self.org[self.sym(a)]; self.org[self.sym(e)] = self.org[self.sym(b)]
+
+    def remove(self, e):
+        self.splice(e, self.oprev(e)); self.splice(self.sym(e), self.oprev(self.sym(e)))
+        self.dead.add(e[0])
+
+    def ring(self, e):
+        out = [e]; x = self.on(e)
+        while x != e and len(out) < 4 * self.n + 4:
+            out.append(x); x = self.on(x)
+        return out
+
+    def live_primal(self):
+        return [(q, r) for q in range(self.n) if q not in self.dead for r in (0, 2)]
+
+    def face_len(self, e):
+        k = 1; x = self.lnext(e)
+        while x != e and k < 4 * self.n + 4:
+            k += 1; x = self.lnext(x)
+        return k
+
+
+def qe_edge(e): return '%d.%d' % e
+
+
+def gen_qe_history(rng, st):
+    """one history: (mode, [op strings], tags). Legal by construction except for a small share of deliberately illegal ops
+    (dead or dual arguments), which the theorems do not cover but model and implementation must still agree on."""
+    mode = rng.choice('FFE')
+    sim = QESim(); ops = []; tags = set(); vid = [100]
+    if mode == 'F':
+        a = sim.make(1, -20); b = sim.make(-20, 22); sim.splice(sim.sym(a), b)
+        c = sim.make(22, 1); sim.splice(sim.sym(b), c); sim.splice(sim.sym(c), a)
+
+    def newv():
+        vid[0] += 1; return vid[0]
+
+    def do(kind, *es):
+        if kind == 'm':
+            ops.append('m %d %d' % es); sim.make(*es)
+        else:
+            ops.append(kind + ' ' + ' '.join(qe_edge(e) for e in es))
+            {'s': sim.splice, 'c': sim.connect, 'w': sim.swap, 'x': sim.remove}[kind](*es)
+
+    def triangle():          # as initSubdiv / the triangulator build one: two edges, splice, connect
+        u, v, w = newv(), newv(), newv()
+        e0 = (sim.n, 0); do('m', u, v); e1 = (sim.n, 0); do('m', v, w); do('s', sim.sym(e0), e1); do('c', e1, e0)
+        tags.add('triangle'); return e0, e1
+
+    def second_triangle(e1):   # a triangle on the other side of e1's successor edge: makes an interior edge
+        w = newv(); e3 = (sim.n, 0); do('m', sim.org[sim.sym(e1)], w); do('s', sim.sym(e1), e3)
+        return e3
+
+    nsteps = rng.randint(3, 22)
+    if rng.random() < 0.6:
+        e0, e1 = triangle()
+        if rng.random() < 0.7:
+            e2 = (e1[0] + 1, 0)                       # the edge made by connect: dest(e1) -> orig(e0)
+            e3 = second_triangle(e1)
+            do('c', e3, sim.sym(e2)); tags.add('two-triangles')
+    for _ in range(nsteps):
+        lp = sim.live_primal()
+        r = rng.random()
+        if not lp or r < 0.16:
+            if lp and rng.random() < 0.5:      # an edge hanging off an existing vertex
+                a = rng.choice(lp); e = (sim.n, 0); do('m', sim.org[a], newv()); do('s', a, e); tags.add('splice-diff')
+            else:
+                do('m', newv(), newv())
+        elif r < 0.20:
+            triangle()
+        elif r < 0.36:                          # splice two edges of the SAME ring (splits it)
+            a = rng.choice(lp); rg = sim.ring(a)
+            dual = rng.random() < 0.2
+            if dual: a = sim.rot(a); rg = sim.ring(a)
+            b = rng.choice(rg)
+            do('s', a, b); tags.add('splice-self' if a == b else ('splice-same-dual' if dual else 'splice-same'))
+        elif r < 0.52:                          # splice two edges of DIFFERENT rings (merges them)
+            a = rng.choice(lp); rg = set(sim.ring(a))
+            cand = [e for e in lp if e not in rg]
+            if cand:
+                b = rng.choice(cand)
+                if rng.random() < 0.15:
+                    a, b = sim.rot(a), sim.rot(b)
+                    tags.add('splice-same-dual' if b in sim.ring(a) else 'splice-diff-dual')
+                else:
+                    tags.add('splice-diff')
+                do('s', a, b)
+        elif r < 0.68:                          # connect: preferably along a face (a.lNext.lNext = b closes a triangle)
+            a = rng.choice(lp)
+            if rng.random() < 0.6:
+                b = sim.lnext(sim.lnext(a)) if rng.random() < 0.5 else sim.lnext(a)
+                tags.add('connect-face')
+            else:
+                b = rng.choice(lp); tags.add('connect-any')
+            do('c', a, b)
+        elif r < 0.82:                          # swap: preferably an interior edge of two adjacent triangles
+            inner = [e for e in lp if sim.face_len(e) == 3 and sim.face_len(sim.sym(e)) == 3 and sim.lnext(e) != sim.sym(e)]
+            if inner and rng.random() < 0.8:
+                e = rng.choice(inner); tags.add('swap-interior')
+            else:
+                e = rng.choice(lp); tags.add('swap-any')
+            do('w', e)
+        elif r < 0.95:                          # remove: preferably a bridge (same face on both sides)
+            bridges = [e for e in lp if sim.inv(e) in sim.ring(sim.rot(e))]
+            if bridges and rng.random() < 0.6:
+                e = rng.choice(bridges); tags.add('remove-bridge')
+            else:
+                e = rng.choice(lp); tags.add('remove-any')
+            do('x', e)
+        else:                                   # outside the legality predicate (model and implementation must still agree)
+            k = rng.random()
+            allq = [(q, rr) for q in range(sim.n) for rr in range(4)]
+            if k < 0.3 and sim.dead:
+                q = rng.choice(sorted(sim.dead)); do('s', (q, 0), rng.choice(lp)); tags.add('illegal-dead')
+            elif k < 0.6:
+                do('s', rng.choice(lp), sim.rot(rng.choice(lp))); tags.add('illegal-mixed-splice')
+            elif k < 0.8:
+                do('x', sim.rot(rng.choice(lp))); tags.add('illegal-dual-remove')
+            else:
+                do('w', sim.rot(rng.choice(lp))); tags.add('illegal-dual-swap')
+    last = None
+    if rng.random() < 0.3 and sim.live_primal() and not any(t.startswith('illegal') for t in tags):
+        lp = sim.live_primal(); a = rng.choice(lp); b = rng.choice([sim.lnext(a), sim.lnext(sim.lnext(a)), rng.choice(lp)])
+        q0 = (sim.n, 0); do('c', a, b); last = (a, q0, b); tags.add('final-connect')
+    return mode, ops, tags, last
+
+
+def parse_qe_dump(d):
+    nxt = {}
+    for t in d.split()[1:]:
+        lhs, rest = t.split('>')
+        tgt = rest.split('^')[0]
+        q, r = lhs.rstrip('!').split('.'); q2, r2 = tgt.split('.')
+        nxt[(int(q), int(r))] = (int(q2), int(r2))
+    return nxt
+
+
+def do_quadedge(S, rng, n):
+    """hand model of the quad-edge algebra (C16/QuadEdgeDefs.v, extracted) beside real QuadEdge objects (harness/c16_quadedge.cpp)
+    on generated operation histories: the canonical dumps (next pointer, rot, origin, liveness of every edge) must be equal."""
+    ctx, st = S['ctx'], S['st']
+    cases = [gen_qe_history(rng, st) for _ in range(n)]
+    cases = [('E', [], set(['empty']), None), ('F', [], set(['empty']), None)] + cases
+    lines = ['H %s %s' % (m, ' ; '.join(ops)) for m, ops, _, _ in cases]
+    impl = par_lines(ctx, [S['qexe']], lines, timeout=300)
+    model = par_lines(ctx, [S['drv']], lines, timeout=300)
+    for (m, ops, tags, last), line, i, mo in zip(cases, lines, impl, model):
+        dump, _, suffix = mo.partition(' | ')
+        flags = dict(t.split('=') for t in suffix.split()) if suffix else {}
+        ctx.count(('H', line), len(ops) >= 3)
+        st.inc('quadedge', 'mode', m)
+        for t in tags: st.inc('quadedge', 'class', t)
+        st.inc('quadedge', 'legal', flags.get('legal', '?'))
+        st.inc('quadedge', 'ops', str(min(40, len(ops)) // 10 * 10) + '+')
+        why = None
+        if i != dump or not dump.startswith('n='):
+            why = 'quad-edge model and QuadEdge objects differ after the same operation history'
+        elif flags.get('legal') == '1' and flags.get('inv') != '1':
+            why = 'a legal history reached a state outside the proved invariant (extracted model contradicts C16_qe_reachable_invariant)'
+        elif last is not None and flags.get('legal') == '1':
+            a, q0, b = last; nx = parse_qe_dump(i)
+            ln = lambda e: QESim.rot(nx[QESim.inv(e)])
+            st.inc('quadedge', 'connect_lnext_checked')
+            if ln(a) != q0 or ln(q0) != b:
+                why = 'connect(a,b): a.lNext / new.lNext are not (new edge, b) on the real objects (QuadEdge.h: same left face)'
+        if why:
+            S['nviol'] += 1
+            ctx.violation('quad-edge history %d' % S['nviol'], dict(history=line, implementation=i[:3000], model=mo[:3000], expected='identical dumps', why=why,
+                                                  replay='echo "%s" | %s ; echo "%s" | %s' % (line, S['qexe'], line, S['drv'])), msg=why)
+            if S['nviol'] > 8:
+                return
+    for l in lines[1:3]:
+        ctx.sample(l)
+
+
+
 # ================================================================================================ the check
 def par_lines(ctx, argv, lines, timeout=900, workers=6, min_chunk=40):
     """ctx.run_lines over contiguous chunks in parallel worker processes (results in input order)"""
@@ -732,15 +948,21 @@ def run(ctx):
     ok_coq = fix_axioms_header(ctx, ok_coq, ax)
     drv = ctx.ocaml_driver('C16')
     hexe = os.path.join(BUILD, 'bin', 'c16')
+    qexe = os.path.join(BUILD, 'bin', 'c16_quadedge')
     if not ok_build or not ctx.cxx(os.path.join(ROOT, 'harness/c16.cpp'), hexe, 'rel') or not drv:
         return
+    if not ctx.cxx(os.path.join(ROOT, 'harness/c16_quadedge.cpp'), qexe, 'rel'):
+        return
     st = Stats()
-    state = dict(ctx=ctx, drv=drv, hexe=hexe, st=st, nviol=0)
+    state = dict(ctx=ctx, drv=drv, hexe=hexe, qexe=qexe, st=st, nviol=0)
     if ctx.replay:
         return do_replay(state, ctx.replay)
     seeds = [ctx.seed] if quick else [ctx.seed + i for i in range(3)]
     for si, sd in enumerate(seeds):
         rng = random.Random(sd * 7919 + 16)
+        do_quadedge(state, random.Random(sd * 7919 + 1616), 1500 if quick else 20000); ctx.log('quad-edge histories done (seed %d)' % sd)
+        if state['nviol'] > 8:
+            break
         do_predicate(state, rng, 2500 if quick else 20000); ctx.log('predicate correspondence done (seed %d)' % sd)
         do_delaunay(state, rng, 700 if quick else 5000, corpus=(si == 0)); ctx.log('Delaunay done')
         do_constrained(state, rng, 1500 if quick else 4000, corpus=(si == 0)); ctx.log('constrained done')
@@ -753,7 +975,10 @@ def run(ctx):
     need = [('delaunay', 'family', 'concentric'), ('delaunay', 'family', 'collinear'), ('delaunay', 'tolerance', 'merge'),
             ('delaunay', 'tolerance', 'sub'), ('constrained', 'holes', 'touching'), ('constrained', 'empty_element_position', 'first'), ('constrained', 'wrapper', 'collection'), ('voronoi', 'env', 'user'), ('voronoi', 'ordered', 'yes'), ('voronoi', 'edges_only', 'yes'), ('voronoi', 'requests', 'PL'), ('voronoi', 'requests', 'LP'), ('delaunay', 'requests', 'ET'), ('delaunay', 'requests', 'TE'), ('voronoi', 'env_shape', 'hstrip'),
             ('voronoi', 'env_shape', 'vstrip'), ('voronoi', 'env_shape', 'offset'), ('voronoi', 'env_multiplier', '100'), ('voronoi', 'env_multiplier', '1000'),
-            ('predicate', 'model_answer', '1'), ('predicate', 'model_answer', '0'), ('predicate', 'model_answer', '2')]
+            ('predicate', 'model_answer', '1'), ('predicate', 'model_answer', '0'), ('predicate', 'model_answer', '2'),
+            ('quadedge', 'class', 'splice-same'), ('quadedge', 'class', 'splice-diff'), ('quadedge', 'class', 'swap-interior'),
+            ('quadedge', 'class', 'remove-bridge'), ('quadedge', 'class', 'connect-face'), ('quadedge', 'mode', 'F'), ('quadedge', 'mode', 'E'),
+            ('quadedge', 'connect_lnext_checked')]
     for path in ([] if state['nviol'] > 8 else need):      # a run cut short by failures has not drawn everything
         d = st
         for k in path:
